@@ -1370,9 +1370,7 @@ def _(it, ci, a, d):
     key = a[1]
     if type(key) is not StringV:
         raise Inconclusive('HashMap key %r' % (key,))
-    if key.guard is not None:
-        raise Inconclusive('HashMap::entry with a guarded key (copy loop over a symbolic table)')
-    return Opaque('HashEntry', {'hm': hm, 'key': key.s})
+    return Opaque('HashEntry', {'hm': hm, 'key': key.s, 'guard': key.guard})
 
 
 def _entry_present(it, e):
@@ -1380,6 +1378,8 @@ def _entry_present(it, e):
     old = hm.entries.get(k)
     if old is None or old.present is False:
         return None
+    if e.get('guard') is not None and old.present is not True:
+        raise Inconclusive('HashMap::entry: guarded key meets an entry of symbolic presence')
     if old.present is not True:
         if not it.decide(old.present, 'hm_entry_present'):
             return None
@@ -1390,7 +1390,9 @@ def _entry_present(it, e):
 def _entry_insert(e, val):
     hm, k = e['hm'], e['key']
     hm.entries.pop(k, None)
-    hm.entries[k] = HEntry(StringV(k), True, [val])
+    # a guarded key (one iteration of a copy loop over a table with symbolic presence) inserts an entry present under that guard
+    g = e.get('guard')
+    hm.entries[k] = HEntry(StringV(k), True if g is None else g, [val])
     return hm.entries[k]
 
 
@@ -2184,7 +2186,12 @@ def _(it, ci, a, d):
             if type(k) is not StringV:
                 k = StringV(sv(k))
             if k.guard is not None:
-                raise Inconclusive('collect of guarded keys')
+                # copying a table of symbolic presence: the copy holds the entry under the same guard (a later duplicate of the
+                # key is not expected from a map iteration)
+                if k.s in hm.entries:
+                    raise Inconclusive('collect: guarded key %r twice' % k.s)
+                hm.entries[k.s] = HEntry(StringV(k.s), k.guard, [v])
+                continue
             hm.entries.pop(k.s, None)
             hm.entries[k.s] = HEntry(k, True, [v])
         return Opaque('HashMap', hm)
